@@ -54,4 +54,4 @@ def run(r):
         r.extra_cov["translator"] = x
     except Exception as e:
         r.proof_broken.append("translator gen_encodings: %s" % e)
-    return standard(r, "c10", ["theories/C10/Proofs.vo"], ["theories/C10/Model.vo"], ["api", "dec", "apilong", "declong"], classify=classify, pre=corpus)
+    return standard(r, "c10", ["theories/C10/Proofs.vo", "theories/C10/Decode.vo"], ["theories/C10/Model.vo"], ["api", "dec", "apilong", "declong"], classify=classify, pre=corpus)
